@@ -10,7 +10,7 @@ SPEC = {
     "design_ref": "DESIGN.md section 5, C02",
     "rule": ("cases = (kFlowDecomp, MinFlowDecomp, kFlowDecompCycles, MinFlowDecompCycles) x (instance: every shape of the world with up to 3 flows); inside: weight type x origin "
              "(edge / node twin, incl. one node without the attribute) x ignored sets (none, each single arc with kept / perturbed value, one pair) x constraint x route "
-             "{greedy, MILP (greedy off), given weights (solution_weights_superset / optimize_with_guessed_weights), k = optimum and optimum+1}; judged: for every non-ignored arc (node) "
+             "{greedy, MILP (greedy off), given weights (solution_weights_superset / optimize_with_guessed_weights), k = optimum and optimum+1} x solver values shifted by -/+ 5e-10 (within tolerance); judged: for every non-ignored arc (node) "
              "sum_i weight_i x traversals_i == input value (exact for int, 1e-6 for float), ints are Python ints. The route actually taken is read from the model and counted. "
              "non-trivial = distinct (class, instance, configuration) solved with >= 2 routes or a route repeating a node"),
     "assumptions": ["float tolerance: abs 1e-6 + rel 1e-6 (the wrapper sets HiGHS tolerances to 1e-9)"],
@@ -117,6 +117,10 @@ def run(case):
         if is_k:
             cfgs.append(("float,k+2", {"weight_type": "float", "k": k0 + 2}, None, "edge", []))
             cfgs.append(("float,k+2,greedy_off", {"weight_type": "float", "k": k0 + 2, "optimization_options": {"optimize_with_greedy": False}}, None, "edge", []))
+    if not fdata:
+        # solver answers within tolerance: every value read from the solver shifted by -/+ 5e-10 (int weights must be rounded, not truncated)
+        cfgs.append(("int,noise-", {"weight_type": "int", "optimization_options": ({} if cyc else {"optimize_with_greedy": False})}, None, "edge", []))
+        cfgs.append(("int,noise+", {"weight_type": "int", "optimization_options": ({} if cyc else {"optimize_with_greedy": False})}, None, "edge", []))
     for name, kw, inst2, origin, ignored in cfgs:
         use = inst2 or inst
         kw = dict(kw)
@@ -124,7 +128,13 @@ def run(case):
             kw["k"] = k0 + (1 if ("ignore" in name or "constraint" in name or "node" in name) else 0)
         if "solution_weights_superset" in kw:
             kw["k"] = k0
-        obs = drivers.observe(dict(use, cls=cls, kw=kw))
+        if "noise" in name:
+            from .. import faults
+            with faults.ValueNoise(-5e-10 if name.endswith("-") else 5e-10) as vn:
+                obs = drivers.observe(dict(use, cls=cls, kw=kw))
+            tags["noisy_value_reads"] += vn.reads
+        else:
+            obs = drivers.observe(dict(use, cls=cls, kw=kw))
         tags[f"cfg:{name.split(',')[1] if ',' in name else 'plain'}"] += 1
         ctx = f"{cls}({name}: {kw})"
         if obs["exc"]:
